@@ -151,7 +151,8 @@ Record Inv (rep : bool) (ids : list nat) (s : state) : Prop := {
   i_J : forall t, t < ntasks s -> t_res (tasks s t) <> None \/ owned s t;
   i_I2 : rep = true -> forall i t e, i < List.length ids -> subs s i = S4 t e ->
            e < t_epoch (tasks s t) \/ (t_res (tasks s t) = None /\ owned s t) \/ pipe s = P3 t;
-  i_I1 : forall id t, tlookup id (tracker s) = Some t -> pending ids s id }.
+  i_I1 : forall id t, tlookup id (tracker s) = Some t -> pending ids s id;
+  i_order : forall i t, i < List.length ids -> subs s i = S3 t -> rep = false }.
 
 Lemma inv_init : forall rep ids, Inv rep ids init.
 Proof.
@@ -163,6 +164,7 @@ Qed.
 (** Submitter steps that only move the submitter's own program counter. *)
 Lemma inv_set_sub : forall rep ids s i p,
   Inv rep ids s -> i < List.length ids ->
+  (forall t, p = S3 t -> rep = false) ->
   (forall t, subs s i <> S1 t) ->
   (forall t, sub_task p = Some t -> t < ntasks s /\ t_id (tasks s t) = idof ids i) ->
   (forall r, p = SDone r -> r < List.length ids /\ idof ids r = idof ids i) ->
@@ -172,7 +174,7 @@ Lemma inv_set_sub : forall rep ids s i p,
      e < t_epoch (tasks s t) \/ (t_res (tasks s t) = None /\ owned s t) \/ pipe s = P3 t) ->
   Inv rep ids (set_sub s i p).
 Proof.
-  intros rep ids s i p I Hi Hn1 Hv Hd H5 Hsn H2. destruct I.
+  intros rep ids s i p I Hi H3 Hn1 Hv Hd H5 Hsn H2. pose proof (i_order _ _ _ I) as Hord. destruct I.
   constructor; cbn [set_sub locked pipe tasks ntasks tracker queue subs]; auto.
   - intros j t Hj. unfold upd. destruct (Nat.eqb j i) eqn:E; [apply Nat.eqb_eq in E; subst j; apply Hv|apply i_sub_valid0; assumption].
   - intros j r Hj. unfold upd. destruct (Nat.eqb j i) eqn:E; [apply Nat.eqb_eq in E; subst j; apply Hd|apply i_done_own0; assumption].
@@ -182,6 +184,7 @@ Proof.
   - intros id t Ht. destruct (i_I4 id t Ht) as [Q|[Q|(j & t' & Hj & Hs & Hid)]]; [left; exact Q|right; left; exact Q|].
     right; right. exists j, t'. repeat split; try assumption. unfold pending. cbn [subs set_sub].
     rewrite upd_neq; [assumption|]. intros ->. exact (Hn1 t' Hs).
+  - intros j t Hj. unfold upd. destruct (Nat.eqb j i) eqn:E; [apply H3|apply Hord; assumption].
 Qed.
 
 Ltac inv_fields I :=
@@ -190,7 +193,8 @@ Ltac inv_fields I :=
   pose proof (i_queue_valid _ _ _ I) as Hqv; pose proof (i_res_own _ _ _ I) as Hro;
   pose proof (i_done_own _ _ _ I) as Hdo; pose proof (i_epoch_res _ _ _ I) as Her;
   pose proof (i_s5 _ _ _ I) as H5; pose proof (i_snap _ _ _ I) as Hsn;
-  pose proof (i_J _ _ _ I) as HJ; pose proof (i_I2 _ _ _ I) as HI2; pose proof (i_I1 _ _ _ I) as HI1.
+  pose proof (i_J _ _ _ I) as HJ; pose proof (i_I2 _ _ _ I) as HI2; pose proof (i_I1 _ _ _ I) as HI1;
+  pose proof (i_order _ _ _ I) as Hord.
 
 (** S0, no entry for the id: a fresh task instance is created and tracked. *)
 Lemma inv_track_new : forall rep ids s i,
@@ -242,6 +246,7 @@ Proof.
     + apply Nat.eqb_eq in E. intros _. right; right. exists i, (ntasks s). cbn [subs]. rewrite upd_eq. auto.
     + intros H. destruct (HI1 id t H) as [Q|[Q|(j & t' & Hj & Hs & Hid)]]; [left; exact Q|right; left; exact Q|].
       right; right. exists j, t'. cbn [subs]. rewrite upd_neq; [auto|]. intros ->. congruence.
+  - intros j t Hj. unfold upd. destruct (Nat.eqb j i) eqn:E; [discriminate|]. apply Hord. exact Hj.
 Qed.
 
 (** S1: the event is sent into the pipeline channel. *)
@@ -266,6 +271,7 @@ Proof.
     + destruct (Nat.eq_dec j i) as [->|Hne].
       * left. exists i. apply in_or_app. right. left. rewrite Hid. reflexivity.
       * right; right. exists j, t''. cbn [subs]. rewrite upd_neq by assumption. auto.
+  - intros j t' Hj. unfold upd. destruct (Nat.eqb j i) eqn:E; [discriminate|]. apply Hord. exact Hj.
 Qed.
 
 (** P0: an event is received from the channel. *)
@@ -406,7 +412,7 @@ Proof.
     inv_fields I. unfold step_sub, res_of, epoch_of in H. destruct (subs s i) eqn:Es.
     + (* S0 *) destruct (locked s) eqn:L; [discriminate|].
       destruct (tlookup (idof ids i) (tracker s)) as [t|] eqn:Et; inversion H; subst.
-      * apply (inv_set_sub rep ids s i (S1 t) I Hi).
+      * apply (inv_set_sub rep ids s i (S1 t) I Hi); [try (intros t00 E00; discriminate E00); try (intros; reflexivity)| | | | | | ].
         -- intros t0. congruence.
         -- intros t0 E. cbn [sub_task] in E. inversion E; subst. apply Htv. exact Et.
         -- intros r E. discriminate.
@@ -418,7 +424,7 @@ Proof.
     + (* S2 *)
       destruct (Hsv i t Hi) as [Tv Tid]; [rewrite Es; reflexivity|].
       destruct rep.
-      * inversion H; subst. apply (inv_set_sub true ids s i _ I Hi).
+      * inversion H; subst. apply (inv_set_sub true ids s i _ I Hi); [try (intros t00 E00; discriminate E00); try (intros; reflexivity)| | | | | | ].
         -- intros t0. congruence.
         -- intros t0 E. cbn [sub_task] in E. inversion E; subst. auto.
         -- intros r E. discriminate.
@@ -426,14 +432,14 @@ Proof.
         -- intros t0 e [E|E]; inversion E; subst. lia.
         -- intros _ t0 e E. discriminate.
       * destruct (t_res (tasks s t)) as [r|] eqn:R; inversion H; subst.
-        -- apply (inv_set_sub false ids s i _ I Hi).
+        -- apply (inv_set_sub false ids s i _ I Hi); [try (intros t00 E00; discriminate E00); try (intros; reflexivity)| | | | | | ].
            ++ intros t0. congruence.
            ++ intros t0 E. discriminate.
            ++ intros r0 E. inversion E; subst. destruct (Hro t r0 Tv R) as [A B]. split; [exact A|congruence].
            ++ intros t0 E. discriminate.
            ++ intros t0 e [E|E]; discriminate.
            ++ intros Hr. discriminate.
-        -- apply (inv_set_sub false ids s i _ I Hi).
+        -- apply (inv_set_sub false ids s i _ I Hi); [try (intros t00 E00; discriminate E00); try (intros; reflexivity)| | | | | | ].
            ++ intros t0. congruence.
            ++ intros t0 E. cbn [sub_task] in E. inversion E; subst. auto.
            ++ intros r0 E. discriminate.
@@ -443,7 +449,7 @@ Proof.
     + (* S3: only in the order before the repair *)
       destruct rep; [discriminate|].
       destruct (Hsv i t Hi) as [Tv Tid]; [rewrite Es; reflexivity|].
-      inversion H; subst. apply (inv_set_sub false ids s i _ I Hi).
+      inversion H; subst. apply (inv_set_sub false ids s i _ I Hi); [try (intros t00 E00; discriminate E00); try (intros; reflexivity)| | | | | | ].
       * intros t0. congruence.
       * intros t0 E. cbn [sub_task] in E. inversion E; subst. auto.
       * intros r0 E. discriminate.
@@ -454,14 +460,14 @@ Proof.
       destruct rep; [|discriminate].
       destruct (Hsv i t Hi) as [Tv Tid]; [rewrite Es; reflexivity|].
       destruct (t_res (tasks s t)) as [r|] eqn:R; inversion H; subst.
-      * apply (inv_set_sub true ids s i _ I Hi).
+      * apply (inv_set_sub true ids s i _ I Hi); [try (intros t00 E00; discriminate E00); try (intros; reflexivity)| | | | | | ].
         -- intros t0. congruence.
         -- intros t0 E. discriminate.
         -- intros r0 E. inversion E; subst. destruct (Hro t r0 Tv R) as [A B]. split; [exact A|congruence].
         -- intros t0 E. discriminate.
         -- intros t0 e0 [E|E]; discriminate.
         -- intros _ t0 e0 E. discriminate.
-      * apply (inv_set_sub true ids s i _ I Hi).
+      * apply (inv_set_sub true ids s i _ I Hi); [try (intros t00 E00; discriminate E00); try (intros; reflexivity)| | | | | | ].
         -- intros t0. congruence.
         -- intros t0 E. cbn [sub_task] in E. inversion E; subst. auto.
         -- intros r0 E. discriminate.
@@ -472,7 +478,7 @@ Proof.
     + (* S4 *)
       destruct (Hsv i t Hi) as [Tv Tid]; [rewrite Es; reflexivity|].
       destruct (Nat.ltb e (t_epoch (tasks s t))) eqn:Lt; [|discriminate]. apply Nat.ltb_lt in Lt.
-      inversion H; subst. apply (inv_set_sub rep ids s i _ I Hi).
+      inversion H; subst. apply (inv_set_sub rep ids s i _ I Hi); [try (intros t00 E00; discriminate E00); try (intros; reflexivity)| | | | | | ].
       * intros t0. congruence.
       * intros t0 E. cbn [sub_task] in E. inversion E; subst. auto.
       * intros r0 E. discriminate.
@@ -482,7 +488,7 @@ Proof.
     + (* S5 *)
       destruct (Hsv i t Hi) as [Tv Tid]; [rewrite Es; reflexivity|].
       destruct (t_res (tasks s t)) as [r|] eqn:R; [|discriminate].
-      inversion H; subst. apply (inv_set_sub rep ids s i _ I Hi).
+      inversion H; subst. apply (inv_set_sub rep ids s i _ I Hi); [try (intros t00 E00; discriminate E00); try (intros; reflexivity)| | | | | | ].
       * intros t0. congruence.
       * intros t0 E. discriminate.
       * intros r0 E. inversion E; subst. destruct (Hro t r0 Tv R) as [A B]. split; [exact A|congruence].
@@ -504,3 +510,147 @@ Proof. intros rep ids s tr s' H. induction H as [s|s l s1 tr s2 Hs _ IH]; intros
 
 Lemma inv_reachable : forall rep ids tr s, exec rep ids init tr s -> Inv rep ids s.
 Proof. intros rep ids tr s H. eapply inv_exec; [exact H|apply inv_init]. Qed.
+
+(** * Safety: a submitter only ever returns the result of an event with its own id *)
+
+Theorem result_is_own : forall rep ids tr s i r,
+  exec rep ids init tr s -> i < List.length ids -> subs s i = SDone r ->
+  r < List.length ids /\ idof ids r = idof ids i.
+Proof. intros rep ids tr s i r H Hi Hd. exact (i_done_own _ _ _ (inv_reachable rep ids tr s H) i r Hi Hd). Qed.
+
+(** * Liveness of the repaired order *)
+
+Lemma not_all_done : forall ids s, all_doneb ids s = false ->
+  exists i, i < List.length ids /\ is_done (subs s i) = false.
+Proof.
+  intros ids s H. unfold all_doneb in H.
+  assert (G : forall l, forallb (fun i => is_done (subs s i)) l = false -> exists i, In i l /\ is_done (subs s i) = false).
+  { induction l as [|x l IH]; cbn [forallb]; [discriminate|]. intros E. apply andb_false_iff in E. destruct E as [E|E].
+    - exists x. split; [left; reflexivity|exact E].
+    - destruct (IH E) as (i & A & B). exists i. split; [right; exact A|exact B]. }
+  destruct (G _ H) as (i & A & B). exists i. split; [|exact B]. apply in_seq in A. lia.
+Qed.
+
+(** While some submitter has not returned, some step is enabled (no lost wake-up, no deadlock). *)
+Theorem deadlock_free_inv : forall ids s,
+  Inv true ids s -> all_doneb ids s = false -> exists l s', stepb true ids s l = Some s'.
+Proof.
+  intros ids s I Hnd. inv_fields I.
+  destruct (pipe s) as [|id r|t r|t] eqn:Ep.
+  2:{ exists LPipe. cbn [stepb]. unfold step_pipe. rewrite Ep. cbn [pipe_locks] in Hlock. rewrite Hlock.
+      destruct (tlookup id (tracker s)); eexists; reflexivity. }
+  2:{ exists LPipe. cbn [stepb]. unfold step_pipe. rewrite Ep. eexists; reflexivity. }
+  2:{ exists LPipe. cbn [stepb]. unfold step_pipe. rewrite Ep. eexists; reflexivity. }
+  cbn [pipe_locks] in Hlock.
+  destruct (queue s) as [|[id r] q] eqn:Eq.
+  2:{ exists LPipe. cbn [stepb]. unfold step_pipe. rewrite Ep, Eq. eexists; reflexivity. }
+  destruct (not_all_done ids s Hnd) as (i & Hi & Hdi).
+  assert (Hlt : Nat.ltb i (List.length ids) = true) by (apply Nat.ltb_lt; exact Hi).
+  destruct (subs s i) eqn:Es; cbn [is_done] in Hdi; try discriminate.
+  - exists (LSub i). cbn [stepb]. rewrite Hlt. unfold step_sub. rewrite Es, Hlock.
+    destruct (tlookup (idof ids i) (tracker s)); eexists; reflexivity.
+  - exists (LSub i). cbn [stepb]. rewrite Hlt. unfold step_sub. rewrite Es. eexists; reflexivity.
+  - exists (LSub i). cbn [stepb]. rewrite Hlt. unfold step_sub. rewrite Es. eexists; reflexivity.
+  - (* S3 does not occur in the repaired order *) pose proof (Hord i t Hi Es). discriminate.
+  - exists (LSub i). cbn [stepb]. rewrite Hlt. unfold step_sub. rewrite Es. destruct (res_of s t); eexists; reflexivity.
+  - destruct (Nat.ltb e (t_epoch (tasks s t))) eqn:Lt.
+    + exists (LSub i). cbn [stepb]. rewrite Hlt. unfold step_sub, epoch_of. rewrite Es, Lt. eexists; reflexivity.
+    + apply Nat.ltb_ge in Lt.
+      destruct (HI2 eq_refl i t e Hi Es) as [B|[[B [C|[r0 C]]]|B]]; [lia| |congruence|congruence].
+      destruct (HI1 _ _ C) as [[r Q]|[[r Q]|(j & t' & Hj & Hs & Hid)]]; [rewrite Eq in Q; destruct Q|congruence|].
+      exists (LSub j). cbn [stepb]. apply Nat.ltb_lt in Hj. rewrite Hj. unfold step_sub. rewrite Hs. eexists; reflexivity.
+  - exists (LSub i). cbn [stepb]. rewrite Hlt. unfold step_sub, res_of. rewrite Es.
+    destruct (Hsv i t Hi) as [Tv _]; [rewrite Es; reflexivity|].
+    pose proof (Her t Tv (H5 i t Hi Es)) as R. destruct (t_res (tasks s t)); [eexists; reflexivity|congruence].
+Qed.
+
+Theorem deadlock_free : forall ids tr s,
+  exec true ids init tr s -> all_doneb ids s = false -> exists l s', stepb true ids s l = Some s'.
+Proof. intros ids tr s H. apply deadlock_free_inv. eapply inv_reachable. exact H. Qed.
+
+Lemma all_done_spec : forall ids s, all_doneb ids s = true ->
+  forall i, i < List.length ids -> exists r, subs s i = SDone r.
+Proof.
+  intros ids s H i Hi. unfold all_doneb in H. rewrite forallb_forall in H.
+  specialize (H i). rewrite in_seq in H. specialize (H ltac:(lia)).
+  destruct (subs s i); try discriminate. eexists; reflexivity.
+Qed.
+
+(** Every maximal trace (a trace that cannot be extended — and by [traces_bounded] every trace
+    can be extended only finitely often) ends with every submitter having returned, each with the
+    result of an event with its own id.  No fairness assumption is needed. *)
+Theorem every_maximal_trace_returns : forall ids tr s,
+  exec true ids init tr s -> (forall l, stepb true ids s l = None) ->
+  forall i, i < List.length ids ->
+    exists r, subs s i = SDone r /\ r < List.length ids /\ idof ids r = idof ids i.
+Proof.
+  intros ids tr s H Hmax i Hi.
+  destruct (all_doneb ids s) eqn:D.
+  - destruct (all_done_spec ids s D i Hi) as [r Hr]. exists r. split; [exact Hr|].
+    exact (result_is_own true ids tr s i r H Hi Hr).
+  - destruct (deadlock_free ids tr s H D) as (l & s' & Hs). rewrite Hmax in Hs. discriminate.
+Qed.
+
+Lemma exec_app : forall rep ids s tr1 s1 tr2 s2,
+  exec rep ids s tr1 s1 -> exec rep ids s1 tr2 s2 -> exec rep ids s (tr1 ++ tr2) s2.
+Proof.
+  intros rep ids s tr1 s1 tr2 s2 H1 H2. induction H1 as [s|s l sa tr sb Hs _ IH]; cbn [app]; [exact H2|].
+  econstructor; [exact Hs|apply IH; exact H2].
+Qed.
+
+(** From every reachable state the run can be completed: whatever has happened so far, there is
+    a continuation after which every submitter has returned (and every continuation is finite). *)
+Theorem can_always_complete : forall ids tr s,
+  exec true ids init tr s -> exists tr' s', exec true ids s tr' s' /\ all_doneb ids s' = true.
+Proof.
+  intros ids tr s H. pose proof (inv_reachable true ids tr s H) as I. clear H tr.
+  remember (measure ids s) as m eqn:Hm. revert s I Hm.
+  induction m as [m IH] using lt_wf_ind. intros s I Hm.
+  destruct (all_doneb ids s) eqn:D.
+  - exists [], s. split; [constructor|exact D].
+  - destruct (deadlock_free_inv ids s I D) as (l & s1 & Hs).
+    pose proof (measure_decreases true ids s l s1 Hs) as Hd.
+    destruct (IH (measure ids s1) ltac:(lia) s1 (inv_step true ids s l s1 I Hs) eq_refl) as (tr' & s' & He & Hdone).
+    exists (l :: tr'), s'. split; [econstructor; eassumption|exact Hdone].
+Qed.
+
+(** * The order before the repair loses the wake-up
+
+    One submitter, one event: the submitter checks (no result yet), the pipeline then receives
+    the event, removes the task, sets the result and calls notify_waiters; only then does the
+    submitter create its Notified — too late, nobody will ever notify again. *)
+Definition asis_schedule : list label := [LSub 0; LSub 0; LSub 0; LPipe; LPipe; LPipe; LPipe; LSub 0].
+
+Definition run_labels (rep : bool) (ids : list nat) (s : state) (tr : list label) : option state :=
+  fold_left (fun o l => match o with Some s => stepb rep ids s l | None => None end) tr (Some s).
+
+Lemma run_labels_exec : forall rep ids tr s s', run_labels rep ids s tr = Some s' -> exec rep ids s tr s'.
+Proof.
+  intros rep ids. induction tr as [|l tr IH]; intros s s' H; unfold run_labels in H; cbn [fold_left] in H.
+  - inversion H. constructor.
+  - destruct (stepb rep ids s l) as [s1|] eqn:E.
+    + econstructor; [exact E|apply IH; exact H].
+    + exfalso. clear -H. induction tr as [|x tr IHt]; cbn [fold_left] in H; [discriminate|auto].
+Qed.
+
+Theorem asis_order_deadlocks : exists s,
+  exec false [0] init asis_schedule s /\ all_doneb [0] s = false /\ forall l, stepb false [0] s l = None.
+Proof.
+  destruct (run_labels false [0] init asis_schedule) as [s|] eqn:E; [|vm_compute in E; discriminate].
+  exists s. split; [apply run_labels_exec; exact E|].
+  vm_compute in E. inversion E; subst s. clear E. split; [reflexivity|].
+  intros [i|]; [|reflexivity]. destruct i as [|i]; reflexivity.
+Qed.
+
+(** Non-vacuity: a reachable, not yet finished state of the repaired order with two concurrent
+    submissions of the same operation, one waiting ([S4]) while the pipeline is between setting
+    the result and notifying. *)
+Example example_reachable : exists s,
+  exec true [0; 0] init [LSub 0; LSub 1; LSub 0; LSub 0; LSub 0; LPipe; LPipe; LPipe] s /\
+  all_doneb [0; 0] s = false /\ subs s 0 = S4 0 0 /\ pipe s = P3 0.
+Proof.
+  destruct (run_labels true [0; 0] init [LSub 0; LSub 1; LSub 0; LSub 0; LSub 0; LPipe; LPipe; LPipe]) as [s|] eqn:E;
+    [|vm_compute in E; discriminate].
+  exists s. split; [apply run_labels_exec; exact E|].
+  vm_compute in E. inversion E; subst s. repeat split; reflexivity.
+Qed.
